@@ -58,6 +58,8 @@ def gen_exact(draw, tier="quick"):
     )
     if case["fit"] and fdim > 1 and all(a == 1.0 for a in spec["anis"]):
         spec["anis"] = [draw(st.sampled_from([0.4, 2.5])) for _ in spec["anis"]]
+    if cfg["variant"] == "simple" and cfg.get("norm", "None") == "None" and draw(st.booleans()):
+        case["remean"] = {"v": draw(st.floats(-2.0, 3.0)), "refresh": draw(st.booleans())}
     return case
 
 
@@ -120,6 +122,21 @@ def check_exact(case, rec):
         f"kriging variance at the conditioning locations is {float(np.max(np.abs(v))):.3g}, expected 0 (tol {tolv:.3g})",
         dict(tags, kind="variance_at_data"),
     )
+    if cfg["variant"] == "simple" and case.get("remean") is not None:
+        # the data are honoured for whatever mean the object carries at the time of the call (estimate only, before and after a new mean)
+        kw2 = dict(kw, return_var=False)
+        with quiet():
+            f1 = lib(k, cond_pos.copy(), _what="Krige.__call__(return_var=False)", _tags=tags, **kw2)
+            k.mean = float(case["remean"]["v"])
+            if case["remean"]["refresh"]:
+                k.set_condition()
+            f2 = lib(k, cond_pos.copy(), _what="Krige.__call__(return_var=False) after a new mean", _tags=tags, **kw2)
+        rec.label("remean_" + ("refresh" if case["remean"]["refresh"] else "no_refresh"))
+        for nm, ff in (("before", f1), ("after", f2)):
+            e2 = np.abs(np.asarray(ff) - vals)
+            require(bool(np.all(e2 <= tolf * (1.0 + abs(float(case["remean"]["v"]))))),
+                    f"estimate-only call {nm} assigning mean = {case['remean']['v']!r}: kriging does not return the conditioning values (max deviation {float(np.max(e2)):.3g})",
+                    dict(tags, kind="not_exact_after_new_mean"))
     n_proc = int(cfg.get("norm", "None") != "None") + int(cfg.get("trend", "none") != "none") + int(cfg.get("mean", "none") not in ("none",))
     rec.nontrivial(cond_pos.shape[1] >= 3 and (n_proc > 0 or kc.is_unbiased(cfg) or cfg["exact"]))
 
